@@ -123,6 +123,20 @@ func CheckStore(c *core.Ctx, tag string, st store.Store, m *model.Bins, o CheckO
 	if !equalBins(got, want) {
 		c.Failf("ForEach.content:"+tag, "ForEach bins %s != model %s", fmtBins(got), fmtBins(want))
 	}
+	if o.Ranks && len(want) > 0 {
+		// iteration stops as soon as the callback asks for it (documented on Store.ForEach)
+		k := 1 + int(c.R.U64()%uint64(len(want)+1))
+		calls := 0
+		st.ForEach(func(int, float64) bool { calls++; return calls >= k })
+		wantCalls := k
+		if len(want) < wantCalls {
+			wantCalls = len(want)
+		}
+		c.Count("oracle.foreach_stop_checks", 1)
+		if calls != wantCalls {
+			c.Failf("ForEach.stop:"+tag, "ForEach with a callback stopping at call %d was called %d times (%d bins)", k, calls, len(want))
+		}
+	}
 	if o.Bins {
 		cb := ChanBins(st)
 		sort.SliceStable(cb, func(i, j int) bool { return cb[i].K < cb[j].K })
